@@ -23,6 +23,15 @@ Two clauses have a structural reading.
      ``inline_function_calls`` that excludes the function result by comparing a
      variable's name with ``callee.<attr>`` uses the same attribute,
      ``result_name`` (for ``function f(..) result(r)`` the result is r, not f).
+ R6  name clashes are decided case-insensitively: in the inline package a
+     membership test of an unfolded ``x.name`` goes to a case-insensitive container
+     (``variable_map`` etc.), never to a set / list / dict built from raw ``.name``s
+     -- ``tmp`` and ``TMP`` are one Fortran variable, and a callee local that is
+     not renamed ends up using the caller's variable.
+ R7  a restriction stored by the inline-call retriever (``self.functions``,
+     ``self.inline_elementals_only``) is consulted by the test that decides
+     whether the arguments of an inline call are searched: arguments of calls that
+     are *not* inlined must be searched, or ``g(f(x))`` hides ``f``.
 Not decided: argument remapping, PRESENT handling, statement-function / elemental
 inlining arithmetic.
 """
@@ -51,6 +60,7 @@ ENTRIES = [(PR, 'inline_subroutine_calls'), (PR, 'map_call_to_procedure_body'), 
 
 def run(ctx):
     m = ctx.model
+    run_r67(ctx)
     ctx.rule('R1', 'some function reachable from inline_subroutine_calls / map_call_to_procedure_body / inline_function_calls '
                    'references ReturnStmt')
     ctx.rule('R2', 'the renamed clone expression for clashing callee locals is identical in the spec mapper and the body map')
@@ -149,7 +159,89 @@ def run(ctx):
         ctx.judge('R5', 'result variable identified by result_name everywhere', facts={'comparisons': [x[2] for x in attrs]})
 
 
+CASE_INSENSITIVE_MAPS = ('variable_map', 'symbol_attrs', 'imported_symbol_map', 'symbol_map', 'import_map', 'subroutine_map',
+                         'interface_symbols', 'member_map', 'procedure_map', 'all_imports_map', 'typedef_map')
+
+
+def run_r67(ctx):
+    m = ctx.model
+    ctx.rule('R6', 'loki/transformations/inline: a Fortran name tested for membership without case folding (`x.name in P`) is looked up in a '
+                   'case-insensitive container -- not in a set / list / dict of raw `.name`s')
+    ctx.rule('R7', 'a restriction set stored by an expression retriever (`self.functions`) is consulted by the handler that decides whether the '
+                   'arguments of an inline call are searched')
+    n6 = 0
+    for mod in m.all_repo_modules(packages=('loki/transformations/inline',)):
+        for fn_ in [x for x in ast.walk(mod.tree) if isinstance(x, (ast.FunctionDef, ast.AsyncFunctionDef))]:
+            for c in ast.walk(fn_):
+                if not (isinstance(c, ast.Compare) and len(c.ops) == 1 and isinstance(c.ops[0], (ast.In, ast.NotIn)) and isinstance(c.left, ast.Attribute)
+                        and c.left.attr == 'name' and isinstance(c.comparators[0], ast.Name)):
+                    continue
+                P = c.comparators[0].id
+                defs = [a.value for a in ast.walk(fn_) if isinstance(a, ast.Assign) and any(isinstance(t, ast.Name) and t.id == P for t in a.targets)]
+                if len(defs) != 1:
+                    continue
+                d = defs[0]
+                n6 += 1
+                inst = f'{mod.relpath}:{fn_.name}:{ast.unparse(c)[:60]}'
+                raw = isinstance(d, (ast.SetComp, ast.ListComp, ast.DictComp, ast.GeneratorExp)) or (
+                    isinstance(d, ast.Call) and X.call_name_of(d) in ('set', 'list', 'tuple', 'dict', 'frozenset', 'OrderedSet') and d.args
+                    and isinstance(d.args[0], (ast.GeneratorExp, ast.ListComp, ast.SetComp)))
+                if raw:
+                    comp = d if not isinstance(d, ast.Call) else d.args[0]
+                    elt = comp.key if isinstance(comp, ast.DictComp) else comp.elt
+                    folded = any(isinstance(k, ast.Call) and isinstance(k.func, ast.Attribute) and k.func.attr in ('lower', 'upper', 'casefold')
+                                 for k in ast.walk(elt))
+                    names = any(isinstance(k, ast.Attribute) and k.attr == 'name' for k in ast.walk(elt))
+                    if names and not folded:
+                        ctx.violation('R6', f'{fn_.name}:case-sensitive-name-container', f'{mod.relpath}:{c.lineno}',
+                                      f'`{ast.unparse(c)}` looks a Fortran name up in `{P} = {ast.unparse(d)[:70]}`, a container of raw names: `tmp` in the '
+                                      f'callee and `TMP` in the caller are the same variable but do not clash here, so the callee local is not '
+                                      f'renamed and the inlined body uses the caller\'s variable', instance=inst)
+                        continue
+                ctx.judge('R6', inst, facts={'container': ast.unparse(d)[:80]})
+    ctx.floor('R6', 'unfolded name membership tests in the inline package', n6, 1)
+    # ---- R7
+    F = 'loki/transformations/inline/functions.py'
+    fmod = m.module_by_path(F)
+    n7 = 0
+    for cls in [c for c in ast.walk(fmod.tree) if isinstance(c, ast.ClassDef)]:
+        init = next((f for f in cls.body if isinstance(f, ast.FunctionDef) and f.name == '__init__'), None)
+        handler = next((f for f in cls.body if isinstance(f, ast.FunctionDef) and f.name == 'map_inline_call'), None)
+        if init is None or handler is None:
+            continue
+        params = {a.arg for a in init.args.args[1:]} | {a.arg for a in init.args.kwonlyargs}
+        stored = {}
+        for a in ast.walk(init):
+            if isinstance(a, ast.Assign) and isinstance(a.targets[0], ast.Attribute) and isinstance(a.targets[0].value, ast.Name) \
+                    and a.targets[0].value.id == 'self' and any(isinstance(n_, ast.Name) and n_.id in params for n_ in ast.walk(a.value)):
+                stored[a.targets[0].attr] = a
+        recs = [i for i in ast.walk(handler) if isinstance(i, ast.If) and any(
+            isinstance(l, ast.For) and 'parameters' in ast.unparse(l.iter) for l in ast.walk(i))]
+        if not recs:
+            raise AnalysisError(f'{cls.name}.map_inline_call: the guarded recursion into the call parameters was not found')
+        for attr in sorted(stored):
+            n7 += 1
+            inst = f'{cls.name}.map_inline_call:self.{attr}'
+            used = any(isinstance(n_, ast.Attribute) and n_.attr == attr and isinstance(n_.value, ast.Name) and n_.value.id == 'self'
+                       for i in recs for n_ in ast.walk(i.test))
+            if used:
+                ctx.judge('R7', inst)
+            else:
+                ctx.violation('R7', f'{cls.name}.map_inline_call:restriction-ignored:{attr}', f'{F}:{recs[0].lineno}',
+                              f'`self.{attr}` restricts which calls are inlined, but the test that decides whether the arguments of an inline call '
+                              f'are searched (`{ast.unparse(recs[0].test)[:90]}`) does not look at it: in `y = g(f(x))` with only f selected, the '
+                              f'call f(x) is never found; the member f is removed from CONTAINS while it is still called', instance=inst)
+    ctx.floor('R7', 'restrictions of the inline-call retriever', n7, 2)
+
+
 MUTANTS = [
+    Mutant('clash-test-on-raw-names', 'loki/transformations/inline/procedures.py', "    parent_variables = routine.variable_map\n",
+           "    parent_variables = {v.name for v in routine.variables}\n", expect=('R6', 'case-sensitive-name-container')),
+    Mutant('neutral-clash-test-folded', 'loki/transformations/inline/procedures.py', "    parent_variables = routine.variable_map\n",
+           "    parent_variables = CaseInsensitiveDict((v.name, v) for v in routine.variables)\n", expect=None),
+    Mutant('restriction-ignored-for-arguments', 'loki/transformations/inline/functions.py',
+           "                    not(expr.procedure_type.is_function and expr.procedure_type.is_elemental)) or\\\n                    (self.functions and expr.routine not in self.functions):",
+           "                    not(expr.procedure_type.is_function and expr.procedure_type.is_elemental)):", expect=('R7', 'restriction-ignored:functions')),
     Mutant('lbound-defaulted-by-truthiness', PR, "                decl_lbound = decl_lbounds[index][0]\n", "                decl_lbound = decl_lbounds[index][0] or sym.IntLiteral(1)\n",
            expect=('R4', 'truthiness-default')),
     Mutant('section-bound-defaulted-by-truthiness', PR, "                    _lower = dim.lower if dim.lower is not None else decl_lbounds[index][1]\n",
